@@ -47,7 +47,7 @@ def plan(tier):
     # a model that returns one pre-allocated output dict, overwritten in place at every call: predictions the explainer
     # keeps by reference must have been consumed before the model is called again
     for cfg in sc.buffer_configs('sage'):
-        tasks.append((cfg, 4, 1 if cfg['storage'] == 'Geometric' else 0, False, 2))
+        tasks.append((cfg, 3 if cfg['d'] == 3 else 4, 1, False, 2))      # bound 1: every feature order occurs
     tasks.sort(key=lambda t: -(t[2] or 0))
     return tasks
 
